@@ -20,6 +20,13 @@ thorough: tiny + default-size).  Per configuration (mc/c02_core.py), all exhaust
     > 20 s), each result compared when returned and all of them, still held, again after the last reset.  All leaves of state and timestep (extras
     included) are compared: ints/bools exactly, floats rtol 1e-5 / atol 1e-6, after `jnp.asarray` of Python-scalar
     leaves (DESIGN §2 canonical form).
+    Native eager episodes: `s, ts = env.reset(key)` then `env.step(s, a)` exactly as a user's Python loop runs
+    them - the state handed to step is the very object the previous un-jitted call returned (Python-scalar and
+    weakly typed leaves included, which the re-packed array copies used above would hide).  Reset keys: the first
+    key of every class of the window 0..15 whose reset states agree on all integer/bool leaves other than the
+    PRNG key (<= 8 / 16 classes; slow-eager families 1 / 3); from each the root fan-out (all actions up to
+    16 / 64, evenly spaced beyond; slow 2 / 6) and then the first-surviving-action chain (6 / 12 steps; slow
+    2 / 4) are stepped eagerly and compared with the graph.  These counts are static, not time-budgeted.
 (2) call histories on ONE object over {reset(k0), reset(k1), step(s0,a0), step(s0,a1), step(s1,a0)}
     (s0 = reset(k0), a0 = first action keeping s0 alive, a1 = last other such action, s1 = step(s0,a0)): all
     5^L maximal sequences (L = 2 quick, 3 thorough: every history of length <= L is a prefix of one) are run
@@ -108,7 +115,7 @@ ORDER = ["bin_pack", "mmst", "robot_warehouse", "rubiks_cube", "pac_man", "lbf",
 REQUIRED = ["n_jit", "n_vmap", "n_vmap1", "n_vmap2", "n_vmap7", "n_scan", "n_scan_full", "n_eager",
             "n_reset_jit", "n_reset_vmap", "n_reset_eager", "n_histories", "n_history_eager_calls",
             "n_trace_probes", "n_argument_checks", "n_instance_calls", "n_effect_checks", "n_held_rechecks",
-            "n_reset_list_vs_vmap"]
+            "n_reset_list_vs_vmap", "n_native_resets", "n_native_steps"]
 
 
 def configurations(tier: str) -> List[Dict[str, str]]:
